@@ -247,6 +247,13 @@ def finish(chk: Check, t0: float, seed: int, audit: Optional[Dict[str, Any]] = N
             "normal form (E0): bound methods of live objects are not rebound; attributes assigned only in "
             "constructors do not change afterwards; range/slice bounds and Interval fields are immutable; "
             "extend(generator) appends element by element",
+            "normal form (E0), added with the later passes: an attribute that constructors bind to a freshly built "
+            "object and nothing rebinds is never None; a method is not re-entered through a callback while a "
+            "local alias of an attribute it assigns is live; a generator is advanced by the consumer it was "
+            "created for (creation and first step are not separated by other effects); copying an inherited "
+            "method into the subclass that inherits it, or the methods of a mix-in into the classes that list "
+            "it first, changes nothing (no super(), no __class__ in them); functools.partial / a function-object "
+            "class over names that are never rebound is the call it abbreviates",
         ],
         "wall_s": round(time.time() - t0, 3),
         "violations": len(new),
